@@ -145,14 +145,12 @@ def gen_case(rng, method, nd, variant, via, tier):
         table = tabulate(grids, lambda xs: poly_eval(poly, xs))
     else:
         table = tabulate(grids, lambda xs: Fr(rng.randrange(-40, 41), 4))
-    if not all(fits53(v) for v in flat(table)):
+    if not all(fits53(v) and abs(v) <= 1024 for v in flat(table)):
         return None
     extrap = rng.random() < 0.35
     want_out = rng.random() < (0.5 if extrap else 0.3)
     pts, kinds = gen_points(rng, grids, want_out)
     exact = exact_ok and (mode == 'uniform' or (method == 'slinear' and mode == 'pow2'))
-    if poly is not None and exact and max(abs(v) for v in flat(table)) > 2 ** 20:
-        exact = False
     return {'kind': 'interp', 'method': method, 'variant': variant, 'via': via,
             'grids': [[pj(v) for v in g] for g in grids], 'table': to_json(table), 'poly': poly,
             'extrap': extrap, 'pts': [[pj(v) for v in p] for p in pts],
